@@ -1155,7 +1155,17 @@ pub fn oracle_c07_join_twin(op: &str, outs: &[String]) -> String {
 /// back-off of C12 seen through the front-ends' own `set_adr` / `set_datarate`.
 pub fn gen_dev_adr_silent(suite: &str, region: &str, rng: &mut Rng, nb: bool) -> String {
     let drs = uplink_drs(region);
-    let top = *drs.iter().filter(|d| **d <= 5).max().unwrap_or(&0);
+    // one run in three hears a stray frame that is too long for its window early on (a parseable
+    // data frame of another network): it ends that procedure like a time-out and counts once
+    let stray = rng.chance(1, 3);
+    let top = if stray { 2 } else { *drs.iter().filter(|d| **d <= 5).max().unwrap_or(&0) };
+    let stray_frame = {
+        let mut d = DownDesc::new(0x0badcafe, 7);
+        d.nwk = OTHER_KEY;
+        d.fport = Some(3);
+        d.payload = rng.bytes(180);
+        d.build().unwrap()
+    };
     let n = 70 + rng.below(70) as usize;
     let off_on_at = if rng.chance(1, 3) { Some(rng.below(60) as usize) } else { None };
     let redundant = rng.below(3); // 0: never, 1: before every send, 2: now and then
@@ -1179,6 +1189,16 @@ pub fn gen_dev_adr_silent(suite: &str, region: &str, rng: &mut Rng, nb: bool) ->
             ts += 8000;
             h.ev(&format!("nsend 1 0 {:02x}", i % 256));
             h.ev(&format!("nradio txdone {}", ts));
+            if stray && i == 1 {
+                // RX1 opens, the stray frame is heard in it, then the remaining time-outs (state errors
+                // once the procedure has ended are harmless)
+                h.ev("ntimeout");
+                h.rx_bytes(0, &stray_frame);
+                for _ in 0..3 {
+                    h.ev("ntimeout");
+                }
+                continue;
+            }
             for _ in 0..4 {
                 h.ev("ntimeout");
             }
@@ -1196,6 +1216,12 @@ pub fn gen_dev_adr_silent(suite: &str, region: &str, rng: &mut Rng, nb: bool) ->
             }
             if redundant == 1 || (redundant == 2 && rng.chance(1, 10)) {
                 h.ev("adr 1");
+            }
+            if stray && i == 1 {
+                let item = h.frame_item(0, &stray_frame, None);
+                let script: Vec<String> = vec!["O".into(), "O".into(), "O".into(), item];
+                h.asend(1, false, &[(i % 256) as u8], &script);
+                continue;
             }
             h.asend(1, false, &[(i % 256) as u8], &[]);
         }
@@ -1219,18 +1245,22 @@ pub fn oracle_c12_dev_silent(op: &str, outs: &[String]) -> String {
     let table = crate::macsuites::dr_table(region);
     let lower_exists = |dr: u8| (0..dr).any(|d| table.get(d as usize).cloned().flatten().is_some());
     let next_lower = |dr: u8| (0..dr).rev().find(|d| table.get(*d as usize).cloned().flatten().is_some());
-    // only histories of abp / dr / adr / snap / silent uplinks
+    // only histories of abp / dr / adr / snap / uplinks without radio faults in which no frame is
+    // ever accepted (frames may be heard: rejected and oversized ones do not restart the count)
     for e in &evs {
         let e0 = e.split_whitespace().next().unwrap_or("");
         let ok = match e0 {
             "abp" | "dr" | "adr" | "snap" | "nsend" | "ntimeout" => !e.contains('|'),
-            "nradio" => e.split_whitespace().nth(1) == Some("txdone") && !e.contains('|'),
-            "asend" => e.split('|').nth(1).map(|s| s.split_whitespace().all(|x| x == "O")).unwrap_or(false),
+            "nradio" => matches!(e.split_whitespace().nth(1), Some("txdone") | Some("rx")) && !e.contains('|'),
+            "asend" => e.split('|').nth(1).map(|s| s.split_whitespace().all(|x| x == "O" || x.starts_with('R'))).unwrap_or(false),
             _ => false,
         };
         if !ok {
             return "ok".into();
         }
+    }
+    if outs.iter().any(|o| o.contains("DownlinkReceived(") || o.contains("SessionExpired") || o.contains("Err(")) {
+        return "ok".into();
     }
     let mut adr = true;
     let mut cnt: u32 = 0;
@@ -1271,7 +1301,17 @@ pub fn oracle_c12_dev_silent(op: &str, outs: &[String]) -> String {
                     return "ok".into();
                 }
                 if ws[0] == "nsend" {
+                    // one uplink = one count, however its procedure ends (time-outs, an oversized
+                    // frame); the procedure is over at the latest when the next uplink is accepted
                     open = true;
+                    if adr {
+                        cnt = cnt.saturating_add(1);
+                        if cnt >= 96 && (cnt - 64) % 32 == 0 {
+                            if let Some(l) = next_lower(d) {
+                                dr = Some(l);
+                            }
+                        }
+                    }
                 } else if adr {
                     cnt = cnt.saturating_add(1);
                     if cnt >= 96 && (cnt - 64) % 32 == 0 {
@@ -1281,19 +1321,9 @@ pub fn oracle_c12_dev_silent(op: &str, outs: &[String]) -> String {
                     }
                 }
             }
-            "ntimeout" => {
-                if open && out.contains("=> RxComplete") {
+            "ntimeout" | "nradio" => {
+                if open && (out.contains("=> RxComplete") || out.contains("=> NoAck")) {
                     open = false;
-                    if adr {
-                        cnt = cnt.saturating_add(1);
-                        if let Some(d) = dr {
-                            if cnt >= 96 && (cnt - 64) % 32 == 0 {
-                                if let Some(l) = next_lower(d) {
-                                    dr = Some(l);
-                                }
-                            }
-                        }
-                    }
                 }
             }
             "snap" => {
